@@ -530,7 +530,7 @@ func concFlushCheck(r *ev.Run, root, id string, base string, round int) {
 
 // concFlushWatch runs one case under the watchdog.
 func concFlushWatch(r *ev.Run, root, id, base string, round int) {
-	if !ev.WithTimeout(time.Duration(r.Pick(180, 600))*time.Second, func() { concFlushCheck(r, root, id, base, round) }) {
+	if !ev.WithTimeout(time.Duration(r.Pick(90, 600))*time.Second, func() { concFlushCheck(r, root, id, base, round) }) {
 		r.Inconclusive("conc-flush case " + id + " did not finish (watchdog)")
 	}
 }
